@@ -52,6 +52,30 @@ def whileUpTo {σ : Type} (n : Nat) (test : σ → Bool) (body : σ → Except P
   | 0 => .ok s
   | n + 1 => if test s then (body s) >>= whileUpTo n test body else .ok s
 
+/-- python `a is b` for objects that are represented by their identity -/
+def is_ {α} [BEq α] (a b : α) : Bool := a == b
+
+/-- `d[k] = v` on an insertion-ordered dict kept as an association list: in place when the key exists, at the end
+    otherwise -/
+def setAssoc {κ ν} [DecidableEq κ] (k : κ) (v : ν) : List (κ × ν) → List (κ × ν)
+  | [] => [(k, v)]
+  | (k', v') :: rest => if k' = k then (k, v) :: rest else (k', v') :: setAssoc k v rest
+
+/-- dict-like objects: `x in d` looks at the keys (`Py.isIn x (Py.keys d)`), `d[k] = v` is `Py.setItem d k v` -/
+class DictLike (δ : Type) (κ : outParam Type) (ν : outParam Type) where
+  keys : δ → List κ
+  setItem : δ → κ → ν → δ
+
+export DictLike (keys setItem)
+
+instance {κ ν} [DecidableEq κ] : DictLike (List (κ × ν)) κ ν := ⟨fun d => d.map (·.1), fun d k v => setAssoc k v d⟩
+
+/-- `{}` -/
+def emptyDict {κ ν} : List (κ × ν) := []
+
+/-- `{k: v for x in xs}` from the list of its (key, value) pairs in iteration order -/
+def dictOf {κ ν} [DecidableEq κ] (l : List (κ × ν)) : List (κ × ν) := l.foldl (fun d p => setAssoc p.1 p.2 d) []
+
 end Py
 
 /-- forget the message of a model-side error: only the class is compared -/
